@@ -302,6 +302,9 @@ func ZZ_C01_Nested(sv *zzsv.T) {
 	tb := scal[sv.Choice("tb", len(scal))]
 	tc := scal[sv.Choice("tc", len(scal))]
 	left := sv.Choice("leftassoc", 2) == 0
+	// two nested floating-point remainders: solver unknown after 20 s (not
+	// registered; `%` with a float operand is covered one level deep by Binary)
+	sv.Assume(!(op1 == "%" && op2 == "%" && (ta == tFloat || tb == tFloat || tc == tFloat)))
 	a := zzValue(sv, "a", ta, 1)
 	b := zzValue(sv, "b", tb, 1)
 	c := zzValue(sv, "c", tc, 1)
